@@ -17,6 +17,13 @@ on read sets with short reads and several sources (candidates, order, selected i
 "preferred reads first"); whole-run scenarios of harness/gen/c03_pipe.py with caps 0 / negative / 23 / 24: share
 `max(1, k // len(family))` = `c07.share`, exact outcome membership for small candidate sets, span counts of the merged read
 set = `c07.merged`, no admissible fragment missing among the candidates.
+
+Option glue (harness/gen/c07_opts.py, Model/C07Opts.lean): random command lines over EVERY option of the working tree's
+`whatshap phase` parser (hidden / legacy ones, repeated options, unique-prefix abbreviations, short and `=` forms, rejected
+combinations, options the documentation does not know).  The reference (`c07_opts.expect`, cross-checked with the Lean op
+`c07.validate`) says which command lines are rejected and, for the others, the cap (last --internal-downsampling, default 15),
+the mapping-quality threshold, the samples / chromosomes / families processed; the trace predicates are evaluated against
+THAT cap, and the candidates against the generated alignments (sample, mapping quality, --only-snvs, completeness).
 """
 import contextlib, io, json, os, shutil
 
@@ -26,13 +33,15 @@ RULE = ("read sets whose reads cover >= 2 strictly increasing variant positions 
         "equal scores), caps k in 1..23, with/without preferred sources and bridging; plus malformed sets (a read with "
         "< 2 variants). A case is non-trivial if at least one read is rejected by the coverage test (selected != all "
         "reads) and at least one is selected; distinct = distinct (reads, k, bridging, preferred) tuple. Pipeline cases: "
-        "distinct (seed-derived) simulated scenarios in which at least one sample had reads discarded by the selection")
+        "distinct (seed-derived) simulated scenarios in which at least one sample had reads discarded by the selection; option "
+        "cases: distinct (scenario seed, command line) pairs of accepted command lines in which reads were discarded")
 MANIFEST = dict(
     text="Lean 4 theorems (all read sets, all k, all tie choices of an abstract priority queue) about a hand-written "
          "model of readselection/readselection_helper/_slice_read_selection/CovMonitor: subset, cap invariant, "
          "termination with proved fuel bounds, maximality of the repaired code (and a machine-checked witness that the "
          "code with defect F9 is not maximal), per-family total cap, and the selection stage of `whatshap phase` (candidate "
-         "filter, integer share, subset order, preferred reads first, merged family read set, table bound). The model is tied to the working tree by requiring "
+         "filter, integer share, subset order, preferred reads first, merged family read set, table bound, the cap derived from the "
+         "command line: last --internal-downsampling, legacy options without effect). The model is tied to the working tree by requiring "
          "the implementation's result to be one of the model's enumerated outcomes (proved to be exactly the outcomes of the "
          "verified function over all tie choices: allOutcomes_sound / allOutcomes_complete) on small inputs, and the property "
          "predicates are evaluated independently on the implementation's output for all sizes and on `whatshap phase` traces",
@@ -237,13 +246,15 @@ def read_tuple(r):
     return (r["name"], r["sample_id"], tuple(v[0] for v in r["variants"]))
 
 
-def check_trace_record(ctx, rec, case):
-    """the per-family statement on one trace record"""
-    k = rec["max_coverage"]
+def check_trace_record(ctx, rec, case, k=None, prefix="pipeline-"):
+    """the per-family statement on one trace record.  `k`: the cap the command line promises (the value of the last
+    --internal-downsampling, 15 without the option) when the caller knows it; every predicate is then evaluated against
+    THAT cap and its share, not against what the run says it used"""
     fam = rec["family"]
     kps = rec["max_coverage_per_sample"]
-    if kps != max(1, k // len(fam)):
-        ctx.fail(f"per-sample cap {kps} != max(1, {k} // {len(fam)})", case, key="pipeline-per-sample-cap")
+    if k is None:
+        k = rec["max_coverage"]
+    kps_traced, kps = kps, max(1, k // len(fam))
     discarded = False
     union = []
     for s in fam:
@@ -263,12 +274,12 @@ def check_trace_record(ctx, rec, case):
             else:
                 ok = False
         if not ok:
-            ctx.fail(f"sample {s}: a selected read is not among the sample's candidate reads", case, key="pipeline-subset")
+            ctx.fail(f"sample {s}: a selected read is not among the sample's candidate reads", case, key=prefix + "subset")
             continue
         prefs = set(c["preferred_source_ids"] or [])
         reads = [[list(t[2]), [0] * len(t[2]), 1 if r["source_id"] in prefs else 0] for t, r in zip(cand, c["reads"])]
         for key, text in oracle(reads, kps, sorted(idx)):
-            ctx.fail(f"whatshap phase, sample {s}, {rec['chromosome']}: {text}", case, key="pipeline-" + key)
+            ctx.fail(f"whatshap phase, sample {s}, {rec['chromosome']}: {text}", case, key=prefix + key)
         if prefs and any(r[2] for r in reads):
             ctx.dist("pipeline_preferred_reads", min(5, sum(r[2] for r in reads)))
         if len(sel) < len(cand):
@@ -276,14 +287,16 @@ def check_trace_record(ctx, rec, case):
         ctx.dist("pipeline_selected_fraction", round(len(sel) / max(1, len(cand)), 1))
     allr = sorted(read_tuple(r) for r in rec["all_reads"])
     if allr != sorted(union):
-        ctx.fail("reads handed to the solver are not the union of the per-sample selections", case, key="pipeline-union")
-    if len(fam) <= k:
+        ctx.fail("reads handed to the solver are not the union of the per-sample selections", case, key=prefix + "union")
+    if 1 <= len(fam) <= k:
         for q in rec["accessible_positions"]:
             n = sum(1 for t in allr if t[2][0] <= q <= t[2][-1])
             if n > k:
                 ctx.fail(f"whatshap phase, family {','.join(fam)}, {rec['chromosome']}: accessible position {q} is spanned by "
-                         f"{n} reads handed to the solver, --internal-downsampling {k}", case, key="pipeline-total-cap")
+                         f"{n} reads handed to the solver, --internal-downsampling {k}", case, key=prefix + "total-cap")
                 break
+    if kps_traced != kps:
+        ctx.fail(f"per-sample cap {kps_traced} != max(1, {k} // {len(fam)})", case, key=prefix + "per-sample-cap")
     ctx.validated()
     return discarded
 
@@ -299,6 +312,31 @@ def pipeline_case(rng, idx):
             "phased_input": (not trio) and rng.random() < 0.35}
 
 
+def make_trio(sc, rng, depth):
+    """S3 becomes the Mendelian-consistent child of S1 (father) and S2 (mother); its reads are re-drawn"""
+    from harness.gen import sim
+    for name in sc.contigs:
+        f, m = sc.haps[("S1", name)], sc.haps[("S2", name)]
+        sc.haps[("S3", name)] = (list(f[rng.randrange(2)]), list(m[rng.randrange(2)]))
+    # reads of S3 were drawn from the old haplotypes: re-draw them
+    sc.reads = [r for r in sc.reads if r["sample"] != "S3"]
+    rid = 10 ** 6
+    for name, seq in sc.contigs.items():
+        L = len(seq)
+        d = rng.randrange(depth[0], depth[1] + 1)
+        for _ in range(max(1, int(d * L / 205))):
+            rl = rng.randrange(60, 351)
+            st = rng.randrange(0, max(1, L - rl))
+            h = rng.randrange(2)
+            hr = sim.hap_read(seq, sc.variants[name], sc.haps[("S3", name)][h], st, min(L, st + rl))
+            if hr is None:
+                continue
+            start, cigar, q, covered = hr
+            rid += 1
+            sc.reads.append({"name": f"r{rid}_S3_h{h}", "chrom": name, "start": start, "cigar": cigar, "seq": q,
+                             "rg": "rg_S3", "sample": "S3", "hap": h, "covered": covered, "mapq": 60})
+
+
 def run_pipeline_case(ctx, pc):
     import random
     from harness.gen import sim
@@ -307,27 +345,7 @@ def run_pipeline_case(ctx, pc):
     sc = sim.Scenario(rng, n_contigs=rng.choice([1, 2]), contig_len=(500, 1100), n_variants=tuple(pc["n_variants"]),
                       samples=samples, depth=tuple(pc["depth"]), read_len=(60, 350), min_gap=20)
     if pc["trio"]:
-        # make the child Mendelian-consistent: child hap0 from S1 (father), hap1 from S2 (mother)
-        for name in sc.contigs:
-            f, m = sc.haps[("S1", name)], sc.haps[("S2", name)]
-            sc.haps[("S3", name)] = (list(f[rng.randrange(2)]), list(m[rng.randrange(2)]))
-        # reads of S3 were drawn from the old haplotypes: re-draw them
-        sc.reads = [r for r in sc.reads if r["sample"] != "S3"]
-        rid = 10 ** 6
-        for name, seq in sc.contigs.items():
-            L = len(seq)
-            d = rng.randrange(pc["depth"][0], pc["depth"][1] + 1)
-            for _ in range(max(1, int(d * L / 205))):
-                rl = rng.randrange(60, 351)
-                st = rng.randrange(0, max(1, L - rl))
-                h = rng.randrange(2)
-                hr = sim.hap_read(seq, sc.variants[name], sc.haps[("S3", name)][h], st, min(L, st + rl))
-                if hr is None:
-                    continue
-                start, cigar, q, covered = hr
-                rid += 1
-                sc.reads.append({"name": f"r{rid}_S3_h{h}", "chrom": name, "start": start, "cigar": cigar, "seq": q,
-                                 "rg": "rg_S3", "sample": "S3", "hap": h, "covered": covered, "mapq": 60})
+        make_trio(sc, rng, pc["depth"])
     d = os.path.join(ctx.workdir(), f"p{pc['idx']}")
     try:
         fa, bam, vcf = sc.write(d)
@@ -357,7 +375,7 @@ def run_pipeline_case(ctx, pc):
             if rec.get("algorithm") != "whatshap":
                 continue
             ctx.dist("pipeline_family_size", len(rec["family"]))
-            disc |= check_trace_record(ctx, rec, case)
+            disc |= check_trace_record(ctx, rec, case, k=pc["k"])
         if disc:
             ctx.nontrivial("pipeline:%d" % pc["seed"])
     finally:
@@ -448,10 +466,11 @@ def flush_stage(ctx, reqs_out):
     reqs_out.clear()
 
 
-def check_trace_model(ctx, rec, case, reqs_out, share_reqs):
+def check_trace_model(ctx, rec, case, reqs_out, share_reqs, k=None):
     """ties of one trace record to the stage model: share, candidates have >= 2 variants, order, exact outcome membership
     for small candidate sets, span counts of the merged read set"""
-    fam, k, kps = rec["family"], rec["max_coverage"], rec["max_coverage_per_sample"]
+    fam, kps = rec["family"], rec["max_coverage_per_sample"]
+    k = rec["max_coverage"] if k is None else k
     share_reqs.append(({"op": "c07.share", "k": k, "m": len(fam)}, case, kps))
     share_reqs.append(({"op": "c07.accepted", "k": k, "m": len(fam)}, case, True))
     sels = []
@@ -482,6 +501,9 @@ def flush_share(ctx, share_reqs):
     answers = ctx.model.ask_many([dict(r, op="c07.share") if r["op"] == "c07.accepted" else r for r, _, _ in share_reqs])
     for (req, case, want), ans in zip(share_reqs, answers):
         got = ans.get("cap") if req["op"] == "c07.share" else ans.get("accepted") if req["op"] == "c07.accepted" else ans
+        if req["op"] == "c07.validate":
+            # the documented interface (Python reference) and the Lean model of add_arguments/validate/main agree
+            got = {"accepted": ans.get("accepted"), "cap": ans.get("cap"), "error": ans.get("error")}
         if got != want:
             ctx.disagree(req["op"], case, want, ans)
         ctx.validated()
@@ -524,7 +546,7 @@ def run_pipe_scenario(ctx, case, reqs_out, share_reqs):
             if rec["max_coverage"] != k:
                 ctx.fail(f"traced max_coverage {rec['max_coverage']} is not --internal-downsampling {k}", case, key="pipeline-cap-option")
             if k >= 1:
-                disc |= check_trace_record(ctx, rec, case)
+                disc |= check_trace_record(ctx, rec, case, k=k)
             else:
                 # a cap of 0 or below: the per-sample share is 1; the family statement of the property needs k >= 1
                 if rec["max_coverage_per_sample"] != 1:
@@ -582,6 +604,250 @@ def gen_pipe_scenario(rng):
 
 
 # ------------------------------------------------------------------------------------------------
+# option stream: every option of `whatshap phase` that can influence which reads reach the solver
+# (harness/gen/c07_opts.py: hidden / legacy options, repeated options, abbreviations, short forms, rejected combinations)
+# ------------------------------------------------------------------------------------------------
+
+_OPTIONS = None
+
+
+def phase_options(ctx):
+    global _OPTIONS
+    if _OPTIONS is None:
+        from harness.gen import c07_opts as O
+        try:
+            _OPTIONS = O.real_options()
+        except Exception as e:        # a working tree whose parser cannot be built in-process: documented options only
+            ctx.observe("argument parser of whatshap phase not importable: %s" % str(e)[:80])
+            _OPTIONS = O.doc_options()
+        for o in _OPTIONS:
+            if not o["documented"]:
+                ctx.observe("option %s of `whatshap phase` is not in the documented interface" % "/".join(o["strings"]))
+        missing = [d for d in O.DOC if d not in {o["dest"] for o in _OPTIONS}]
+        if missing:
+            ctx.observe("documented options missing from the parser: %s" % ",".join(missing))
+    return _OPTIONS
+
+
+def opts_scenario(oc):
+    """the simulated data of an option case (derived from its seed only)"""
+    import random
+    from harness.gen import sim, c07_opts as O
+    rng = random.Random(oc["seed"])
+    samples = O.LAYOUTS[oc["layout"]]
+    sc = sim.Scenario(rng, n_contigs=oc["n_contigs"], contig_len=(500, 1000), n_variants=tuple(oc["n_variants"]),
+                      kinds=tuple(oc["kinds"]), samples=samples, depth=tuple(oc["depth"]), read_len=(60, 350), min_gap=20)
+    if oc["layout"] == "trio":
+        make_trio(sc, rng, oc["depth"])
+    for r in sc.reads:      # mapping qualities around the thresholds the options use; most reads pass every threshold < 60
+        r["mapq"] = 60 if rng.random() < 0.7 else rng.choice(O.MAPQ_PALETTE)
+    return sc
+
+
+def opts_expect(oc):
+    from harness.gen import c07_opts as O
+    return O.expect(oc["items"], O.LAYOUTS[oc["layout"]], [f"chr{i + 1}" for i in range(oc["n_contigs"])])
+
+
+def opts_cmdline(oc):
+    from harness.gen import c07_opts as O
+    return " ".join(O.render(oc, {"FA": "ref.fa", "PED": "fam.ped", "GENMAP": "genmap.txt", "D": ".", "VCF": "in.vcf",
+                                  "BAM": "in.bam", "OUT": "out.vcf"}))
+
+
+def check_opts_candidates(ctx, case, sc, rec, exp):
+    """which reads may and must be candidates of the selection, from the generated alignments only: reads of the sample
+    (any read with --ignore-read-groups) on that chromosome with mapping quality >= the threshold of the command line
+    (last --mapping-quality/--mapq, default 20); with --only-snvs no indel position; and no such read that spans (6 bases
+    margin) two phasable SNVs may be missing"""
+    chrom = rec["chromosome"]
+    snv = {v.pos for v in sc.variants[chrom] if v.kind == "snv"}
+    pool = {}
+    for r in sc.reads:
+        if r["chrom"] == chrom:
+            end = r["start"] + sum(n for op, n in r["cigar"] if op in (0, 2, 3, 7, 8))
+            pool[r["name"]] = (r["sample"], r["mapq"], r["start"], end)
+    for s in rec["family"]:
+        cands = rec["candidates"][s]["reads"]
+        names = set()
+        for r in cands:
+            if r["source_id"] != 0:
+                continue
+            names.add(r["name"])
+            info = pool.get(r["name"])
+            if info is None or (info[0] != s and not exp["ignore_rg"]):
+                ctx.fail(f"{chrom}, sample {s}: candidate read {r['name']} is not an alignment of that sample", case,
+                         key="opts-foreign-read")
+                return
+            if info[1] < exp["mapq"]:
+                ctx.fail(f"{chrom}, sample {s}: candidate read {r['name']} has mapping quality {info[1]} < {exp['mapq']}",
+                         case, key="opts-candidate-below-mapq")
+                return
+            if exp["only_snvs"] and any(v[0] not in snv for v in r["variants"]):
+                ctx.fail(f"{chrom}, sample {s}: --only-snvs but candidate read {r['name']} covers a non-SNV position", case,
+                         key="opts-indel-with-only-snvs")
+                return
+        cand_pos = {v[0] for r in cands for v in r["variants"]} & snv
+        for name, (smp, mq, st, end) in pool.items():
+            if (smp != s and not exp["ignore_rg"]) or mq < exp["mapq"] or name in names:
+                continue
+            vs = sorted(q for q in cand_pos if st + 6 <= q < end - 6)
+            if len(vs) >= 2:
+                ctx.fail(f"{chrom}, sample {s}: read {name} (mapq {mq}) spans the phasable SNVs at {vs[:4]} but is not among "
+                         f"the candidates of the selection", case, key="opts-candidate-missing")
+                return
+
+
+def run_opts_case(ctx, case, reqs_out, share_reqs):
+    """one CLI run of an option case; the predicates of the property are evaluated against the cap the documented
+    interface promises for this command line"""
+    from harness.gen import sim, c07_opts as O
+    oc = case["opts"]
+    exp = opts_expect(oc)
+    case = dict(case, cmdline=opts_cmdline(oc))
+    d = os.path.join(ctx.workdir(), "opts")
+    shutil.rmtree(d, ignore_errors=True)
+    try:
+        sc = opts_scenario(oc)
+        fa, bam, vcf = sc.write(d)
+        paths = {"FA": fa, "BAM": bam, "VCF": vcf, "D": d, "OUT": os.path.join(d, "out.vcf"),
+                 "PED": os.path.join(d, "fam.ped"), "GENMAP": os.path.join(d, "genmap.txt")}
+        with open(paths["PED"], "w") as f:
+            f.write("F1 S3 S1 S2 0 1\n")
+        with open(paths["GENMAP"], "w") as f:
+            f.write("position COMBINED_rate(cM/Mb) Genetic_Map(cM)\n1 0 0\n400 1.5 0.0006\n2000 1.2 0.0025\n")
+        argv = O.render(oc, paths)
+        rc, so, se, trace = sim.whatshap(argv, ctx.overlay, trace=os.path.join(d, "trace.jsonl"))
+        ctx.evaluated()
+        used = sorted({it[0] for it in oc["items"]})
+        for dest in used:
+            ctx.dist("opts_option", dest)
+        ctx.dist("opts_spelling", "abbreviated" if any(it[2] not in sum((o["strings"] for o in phase_options(ctx)), [])
+                                                       for it in oc["items"]) else "full")
+        ctx.dist("opts_expected_status", exp["reason"] or "runs")
+        ctx.dist("opts_layout", oc["layout"])
+        status = 0 if rc == 0 else 2 if rc == 2 else 1
+        # a clean command-line error is logged as "whatshap error: …" (with --debug followed by a traceback) and exits with 1
+        crashed = rc not in (0, 2) and "whatshap error:" not in se
+        last = (se.strip().splitlines() or ["?"])[-1][:160]
+        if exp["validate_input"] is not None:
+            share_reqs.append((dict(exp["validate_input"], op="c07.validate"), case,
+                               {"accepted": exp["status"] != 2, "cap": exp["k"] if exp["status"] != 2 else None,
+                                "error": exp["reason"] if exp["status"] == 2 else None}))
+        if exp["unknown_options"] and rc == 2:
+            return          # an option the documentation does not know may be rejected
+        if exp["status"] == 2:
+            if rc == 0 and exp["reason"] == "cap-above-23":
+                ctx.fail(f"--internal-downsampling {exp['k']} was not rejected: {opts_cmdline(oc)}", case,
+                         key="opts-cap-above-23-accepted")
+            elif rc != 2:
+                ctx.disagree("c07.validate(status)", case, {"rc": rc, "crashed": crashed, "stderr": last},
+                             {"status": 2, "reason": exp["reason"]})
+            return
+        if crashed and (exp["reason"] or "").startswith("F103"):
+            ctx.observe("F103 (outside the C07 statement): --ignore-read-groups with several --sample crashes: " + last[:80])
+            return
+        if crashed or status != exp["status"]:
+            # not a statement about the cap: the exit status differs from what the documented interface says
+            ctx.disagree("c07.validate(status)", case, {"rc": rc, "crashed": crashed, "stderr": last},
+                         {"status": exp["status"], "reason": exp["reason"]})
+            return
+        if rc != 0:
+            return
+        k = exp["k"]
+        want = sorted((c, tuple(sorted(f))) for c in exp["chromosomes"] for f in exp["families"])
+        got = sorted((r["chromosome"], tuple(sorted(r["family"]))) for r in trace)
+        if want != got:
+            ctx.disagree("c07.opts(families processed)", case, got, want)
+        disc = False
+        for rec in trace:
+            if rec.get("algorithm") != "whatshap":
+                ctx.disagree("c07.opts(algorithm)", case, rec.get("algorithm"), "whatshap")
+                continue
+            ctx.dist("pipeline_family_size", len(rec["family"]))
+            if k >= 1:
+                disc |= check_trace_record(ctx, rec, case, k=k, prefix="opts-")
+            elif rec["max_coverage_per_sample"] != 1:
+                ctx.fail(f"--internal-downsampling {k}: per-sample cap {rec['max_coverage_per_sample']}, expected 1", case,
+                         key="opts-per-sample-cap")
+            if rec["max_coverage"] != k:
+                ctx.fail(f"the run uses cap {rec['max_coverage']}, the command line promises --internal-downsampling {k}: "
+                         f"{opts_cmdline(oc)}", case, key="opts-cap-option")
+            check_opts_candidates(ctx, case, sc, rec, exp)
+            check_trace_model(ctx, rec, case, reqs_out, share_reqs, k=k)
+        if disc:
+            ctx.nontrivial("opts:%d:%s" % (oc["seed"], opts_cmdline(oc)))
+    finally:
+        shutil.rmtree(d, ignore_errors=True)
+
+
+def parse_opts_case(ctx, case, share_reqs):
+    """the same command lines against the working tree's parser + `validate` in-process (no run): accepted / rejected,
+    and for an accepted one the values `main` hands to `run_whatshap`"""
+    import logging
+    from harness.gen import c07_opts as O
+    from whatshap.args import HelpfulArgumentParser
+    from whatshap.cli import phase
+    oc = case["opts"]
+    exp = opts_expect(oc)
+    argv = O.render(oc, {"FA": "ref.fa", "PED": "fam.ped", "GENMAP": "genmap.txt", "D": ".", "VCF": "in.vcf", "BAM": "in.bam",
+                         "OUT": "out.vcf"})
+    parser = HelpfulArgumentParser(prog="whatshap")
+    parser.add_argument("--debug", action="store_true", default=False)
+    sub = parser.add_subparsers().add_parser("phase")
+    phase.add_arguments(sub)
+    logging.disable(logging.CRITICAL)
+    impl = None
+    try:
+        with contextlib.redirect_stderr(io.StringIO()), contextlib.redirect_stdout(io.StringIO()):
+            try:
+                args = parser.parse_args(argv)
+                phase.validate(args, sub)
+                impl = {"accepted": True, "cap": args.max_coverage, "mapq": args.mapping_quality, "samples": list(args.samples),
+                        "chromosomes": list(args.chromosomes), "ignore_rg": bool(args.ignore_read_groups),
+                        "only_snvs": bool(args.only_snvs)}
+            except SystemExit as e:
+                impl = {"accepted": False, "code": e.code}
+    finally:
+        logging.disable(logging.NOTSET)
+    ctx.evaluated()
+    ctx.dist("opts_parse_expected", exp["reason"] if exp["status"] == 2 else "accepted")
+    if exp["validate_input"] is not None:
+        share_reqs.append((dict(exp["validate_input"], op="c07.validate"), case,
+                           {"accepted": exp["status"] != 2, "cap": exp["k"] if exp["status"] != 2 else None,
+                            "error": exp["reason"] if exp["status"] == 2 else None}))
+    if exp["unknown_options"] and not impl["accepted"]:
+        return
+    if exp["status"] == 2:
+        model = {"accepted": False, "code": 2}
+    else:
+        lists = {"samples": [it[1] for it in oc["items"] if it[0] == "samples"],
+                 "chromosomes": [it[1] for it in oc["items"] if it[0] == "chromosomes"]}
+        model = {"accepted": True, "cap": exp["k"], "mapq": exp["mapq"], "samples": lists["samples"],
+                 "chromosomes": lists["chromosomes"], "ignore_rg": exp["ignore_rg"], "only_snvs": exp["only_snvs"]}
+    if impl != model:
+        ctx.disagree("c07.validate(parse)", dict(case, cmdline=" ".join(argv)), impl, model)
+    ctx.validated()
+
+
+def run_opts_stream(ctx, stage_reqs, share_reqs):
+    """option stream: many command lines against parser + validate in-process, some of them as real runs"""
+    from harness.gen import c07_opts as O
+    rng = ctx.rng
+    options = phase_options(ctx)
+    for i in range((3000 if ctx.quick else 30000) * ctx.scale):
+        parse_opts_case(ctx, O.gen_case(rng, options), share_reqs)
+        if len(share_reqs) >= 500:
+            flush_share(ctx, share_reqs)
+    flush_share(ctx, share_reqs)
+    for i in range((45 if ctx.quick else 300) * ctx.scale):
+        run_opts_case(ctx, O.gen_case(rng, options), stage_reqs, share_reqs)
+        if len(stage_reqs) >= 200:
+            flush_stage(ctx, stage_reqs)
+    flush_stage(ctx, stage_reqs); flush_share(ctx, share_reqs)
+
+
+# ------------------------------------------------------------------------------------------------
 
 def run(ctx):
     rng = ctx.rng
@@ -598,6 +864,9 @@ def run(ctx):
             do_stage(ctx, stage_reqs, {"stage": dict(case["trace_stage"], pref_none=False)}, "trace"); flush_stage(ctx, stage_reqs)
         elif "pipe" in case:
             run_pipe_scenario(ctx, case, stage_reqs, share_reqs); flush_stage(ctx, stage_reqs); flush_share(ctx, share_reqs)
+        elif "opts" in case:
+            parse_opts_case(ctx, case, share_reqs)
+            run_opts_case(ctx, case, stage_reqs, share_reqs); flush_stage(ctx, stage_reqs); flush_share(ctx, share_reqs)
         else:
             c = case.get("lib", case)
             lib.check(c, len(c["reads"]) <= 9, "corpus")
@@ -611,6 +880,10 @@ def run(ctx):
         one(c)
     lib.flush()
 
+    if os.environ.get("C07_ONLY") == "opts":      # development knob: only the option stream
+        run_opts_stream(ctx, stage_reqs, share_reqs)
+        shutil.rmtree(ctx.workdir(), ignore_errors=True)
+        return
     n_before = len(ctx.fails)
     n_small = (5000 if ctx.quick else 40000) * ctx.scale
     for _ in range(n_small):
@@ -664,4 +937,6 @@ def run(ctx):
     for i in range((16 if ctx.quick else 120) * ctx.scale):
         run_pipe_scenario(ctx, gen_pipe_scenario(rng), stage_reqs, share_reqs)
     flush_stage(ctx, stage_reqs); flush_share(ctx, share_reqs)
+
+    run_opts_stream(ctx, stage_reqs, share_reqs)
     shutil.rmtree(ctx.workdir(), ignore_errors=True)
